@@ -96,6 +96,8 @@ structure HSpec where
   h : Handler
   maps : List (Ty × Val)
   resp : Option String
+  /-- static result types of a value-returning handler (`r` specs): how the recording ReturnHandler prints them -/
+  rtypes : List String := []
 
 /-- `validateAndWrapHandler`'s type switch: `func(Context)`, `func(http.ResponseWriter,
     *http.Request)` (and `http.HandlerFunc`), `func() (int, string)` -/
@@ -123,11 +125,42 @@ def parseHandler : List String → Option HSpec
   | ["t", status, body] =>
     some { h := validateAndWrap (builtinShape 2) (.plain [] (fun _ => [natOf status, 0])), maps := [], resp := some s!"{natOf status}:{body}" }
   | ["ci", maps] => some { h := .fast [tyCtx] (wrap 1 noResults), maps := parseMaps maps, resp := none }
+  | ["r", shape, a, b] =>
+    -- an ordinary Go function of a common handler type that returns values (none of them is one of the
+    -- built-in wrapped shapes: those are `func(Context)`, `func(ResponseWriter, *Request)`, `func() (int, string)`)
+    let mk (sig : List Ty) (rt : List String) (res : List Nat) : Option HSpec :=
+      some { h := validateAndWrap (builtinShape rt.length) (.plain sig (fun _ => res)), maps := [], resp := none, rtypes := rt }
+    match shape with
+    | "ce" => mk [tyCtx] ["error"] [natOf a]
+    | "cs" => mk [tyCtx] ["string"] [natOf a]
+    | "e" => mk [] ["error"] [natOf a]
+    | "s" => mk [] ["string"] [natOf a]
+    | "cis" => mk [tyCtx] ["int", "string"] [natOf a, natOf b]
+    | "wre" => mk [tyRW, tyReq] ["error"] [natOf a]
+    | "se" =>
+      some { h := .plain [] (fun _ => [natOf a, natOf b]), maps := [], resp := none, rtypes := ["string", "error"] }
+    | "ie" =>
+      some { h := .plain [] (fun _ => [natOf a, natOf b]), maps := [], resp := none, rtypes := ["int", "error"] }
+    | "cb" => mk [tyCtx] ["[]uint8"] [natOf a]
+    | _ => none
   | ["l", maps] => some { h := .fast [tyCtx, tyLog] (wrap 2 noResults), maps := parseMaps maps, resp := none }
   | _ => none
 
 /-- `context.run` over the handlers of request `k`: invoke each in turn on the request's chain; an
     invocation error panics out of `ServeHTTP`; a handler that wrote the response ends the chain -/
+def hexStr (s : String) : String :=
+  if s.isEmpty then "-" else String.join (s.toUTF8.toList.map fun b =>
+    let d (n : Nat) : Char := if n < 10 then Char.ofNat (48 + n) else Char.ofNat (87 + n)
+    String.mk [d (b.toNat / 16), d (b.toNat % 16)])
+
+/-- what the recording ReturnHandler prints for one result: its static type and its value -/
+def showResult (t : String) (v : Nat) : String :=
+  match t with
+  | "error" => if v == 0 then "error=nil" else s!"error=e{v}"
+  | "string" => "string=" ++ hexStr (if v == 0 then "" else s!"s{v}")
+  | "[]uint8" => "[]uint8=" ++ hexStr (if v == 0 then "" else s!"s{v}")
+  | _ => s!"{t}={v}"
+
 def serve (U : Universe) (w : World) (k : Nat) : List HSpec → List String × World
   | [] => (["resp 200:-"], w)
   | hs :: rest =>
@@ -136,9 +169,13 @@ def serve (U : Universe) (w : World) (k : Nat) : List HSpec → List String × W
     match o.result, argSets U chain hs.h.sig with
     | .error t, _ => ([s!"err {t}", "resp panic"], w)
     | .ok _, .error _ => (["model-inconsistent"], w)
-    | .ok _, .ok sets =>
+    | .ok rs, .ok sets =>
       let w := hs.maps.foldl (fun w m => w.mapReq k m.1 m.2) w
       let ev := s!"ran {showSets sets}"
+      -- `if len(vals) > 0 { returnHandler(c, vals) }`: the results the invocation handed back, with the
+      -- handler's own static result types
+      let ev := if hs.rtypes.isEmpty then ev
+                else ev ++ " res " ++ joinWith "," ((hs.rtypes.zip rs).map fun p => showResult p.1 p.2)
       if o.calls.length != 1 then (["model-inconsistent"], w)
       else match hs.resp with
         | some r => ([ev, s!"resp {r}"], w)
@@ -161,6 +198,7 @@ def flameSession (args : List String) (lines : List (List String)) : List String
         match l with
         | ["FM", ty, v] => "ok" :: go { st with w := st.w.mapApp (natOf ty) (natOf v) } rest
         | ["FMT", ty, _, v] => "ok" :: go { st with w := st.w.mapApp (natOf ty) (natOf v) } rest
+        | ["FR"] => "ok" :: go st rest     -- a recording ReturnHandler (a type outside the universe) in the app scope
         | ["FV", ty] =>
           let vs := valueSet U st.w.app (natOf ty)
           (if vs.isEmpty then "none" else s!"val {showSet vs}") :: go st rest
